@@ -27,6 +27,8 @@ theorem v3_add_zero_lit (a : V3 K) : a + (⟨0, 0, 0⟩ : V3 K) = a := by
   cases a; simp [V3.add_def]
 theorem smul_zero_scalar (v : V3 K) : V3.smul 0 v = ⟨0, 0, 0⟩ := by
   simp [V3.smul]
+theorem v3_add_zero_zero : ((⟨0, 0, 0⟩ : V3 K) + ⟨0, 0, 0⟩) = ⟨0, 0, 0⟩ := by simp [V3.add_def]
+theorem smul_zero_vec (s : K) : V3.smul s (⟨0, 0, 0⟩ : V3 K) = ⟨0, 0, 0⟩ := by simp [V3.smul]
 theorem maskV_zero (b : Bool) : maskV b (⟨0, 0, 0⟩ : V3 K) = ⟨0, 0, 0⟩ := by
   cases b <;> rfl
 theorem mulVec_zero_lit (m : M3 K) : M3.mulVec m (⟨0, 0, 0⟩ : V3 K) = ⟨0, 0, 0⟩ := by
@@ -56,5 +58,323 @@ theorem limDelta_inRange {x : K} {lo hi : Option K} (h : InRange x lo hi) :
 theorem limDelta_none (x : K) : Spring.limDelta x none none = 0 := rfl
 
 end limits
+
+section dofs
+variable {K : Type} [Field K] [LinearOrder K] [IsStrictOrderedRing K] [HasSqrt K] [HasTrig K]
+
+
+theorem oneDof_limit_inert (lk : LinkP K) (j : Tf K) (jd : Motion K) (d : DofP K) (tau : K)
+    (h : if v3Any d.motion.vel
+         then InRange (V3.dot j.pos (frame1 d.motion).vel.r0) d.lo d.hi
+         else InRange (axisAngleAng j (frame1 d.motion).ang (frame1 d.motion).parity).psi d.lo d.hi) :
+    Spring.oneDof true lk j jd d tau = Spring.oneDof false lk j jd d tau := by
+  unfold Spring.oneDof
+  simp only [if_true, Bool.false_eq_true, if_false]
+  by_cases hT : v3Any d.motion.vel = true
+  · rw [if_pos hT] at h
+    simp only [hT, Bool.not_true, maskV_false, maskV_true, limDelta_inRange h, mul_zero,
+      smul_zero_scalar, v3_sub_zero_lit]
+  · rw [if_neg hT] at h
+    have hF : v3Any d.motion.vel = false := by simpa using hT
+    simp only [hF, Bool.not_false, maskV_false, maskV_true, limDelta_inRange h, mul_zero,
+      smul_zero_scalar, v3_sub_zero_lit]
+
+
+
+theorem v3Any_eq_false {v : V3 K} (h : v3Any v = false) : v = ⟨0, 0, 0⟩ := by
+  unfold v3Any at h
+  simp only [Bool.or_eq_false_iff, Bool.not_eq_false', eqZero_iff] at h
+  obtain ⟨⟨hx, hy⟩, hz⟩ := h
+  cases v; simp_all
+
+theorem smul_limDelta_maskV (b : Bool) (v : V3 K) (x : K) (lo hi : Option K)
+    (h : b = true → InRange x lo hi) :
+    V3.smul (Spring.limDelta x lo hi) (maskV b v) = ⟨0, 0, 0⟩ := by
+  cases b
+  · exact smul_zero_vec _
+  · rw [limDelta_inRange (h rfl)]; exact smul_zero_scalar _
+
+theorem smul_limDelta_any (v : V3 K) (x : K) (lo hi : Option K)
+    (h : v3Any v = true → InRange x lo hi) :
+    V3.smul (Spring.limDelta x lo hi) v = ⟨0, 0, 0⟩ := by
+  by_cases hv : v3Any v = true
+  · rw [limDelta_inRange (h hv)]; exact smul_zero_scalar _
+  · have hv0 : v = ⟨0, 0, 0⟩ := v3Any_eq_false (by simpa using hv)
+    rw [hv0]; exact smul_zero_vec _
+
+theorem twoDof_limit_inert (lk : LinkP K) (j : Tf K) (jd : Motion K) (d0 d1 : DofP K) (t0 t1 : K)
+    (ha0 : v3Any d0.motion.ang = true →
+      InRange (axisAngleAng j (frame2 d0.motion d1.motion).ang (frame2 d0.motion d1.motion).parity).psi d0.lo d0.hi)
+    (ha1 : v3Any d1.motion.ang = true →
+      InRange (axisAngleAng j (frame2 d0.motion d1.motion).ang (frame2 d0.motion d1.motion).parity).theta d1.lo d1.hi)
+    (hv0 : v3Any d0.motion.vel = true → InRange (V3.dot j.pos d0.motion.vel) d0.lo d0.hi)
+    (hv1 : v3Any d1.motion.vel = true → InRange (V3.dot j.pos d1.motion.vel) d1.lo d1.hi) :
+    Spring.twoDof true lk j jd d0 d1 t0 t1 = Spring.twoDof false lk j jd d0 d1 t0 t1 := by
+  unfold Spring.twoDof
+  simp only [if_true, Bool.false_eq_true, if_false, smul_limDelta_maskV _ _ _ _ _ ha0,
+    smul_limDelta_maskV _ _ _ _ _ ha1, smul_limDelta_any _ _ _ _ hv0, smul_limDelta_any _ _ _ _ hv1,
+    v3_add_zero_zero, smul_zero_vec, maskV_zero, v3_sub_zero_lit]
+
+theorem threeDof_limit_inert (lk : LinkP K) (j : Tf K) (jd : Motion K) (d0 d1 d2 : DofP K)
+    (t0 t1 t2 : K)
+    (ha0 : v3Any d0.motion.ang = true →
+      InRange (axisAngleAng j (frame3 d0.motion d1.motion d2.motion).ang (frame3 d0.motion d1.motion d2.motion).parity).psi d0.lo d0.hi)
+    (ha1 : v3Any d1.motion.ang = true →
+      InRange (axisAngleAng j (frame3 d0.motion d1.motion d2.motion).ang (frame3 d0.motion d1.motion d2.motion).parity).theta d1.lo d1.hi)
+    (ha2 : v3Any d2.motion.ang = true →
+      InRange (axisAngleAng j (frame3 d0.motion d1.motion d2.motion).ang (frame3 d0.motion d1.motion d2.motion).parity).phi d2.lo d2.hi)
+    (hv0 : v3Any d0.motion.vel = true → InRange (V3.dot d0.motion.vel j.pos) d0.lo d0.hi)
+    (hv1 : v3Any d1.motion.vel = true → InRange (V3.dot d1.motion.vel j.pos) d1.lo d1.hi)
+    (hv2 : v3Any d2.motion.vel = true → InRange (V3.dot d2.motion.vel j.pos) d2.lo d2.hi) :
+    Spring.threeDof true lk j jd d0 d1 d2 t0 t1 t2 = Spring.threeDof false lk j jd d0 d1 d2 t0 t1 t2 := by
+  unfold Spring.threeDof
+  simp only [if_true, Bool.false_eq_true, if_false, smul_limDelta_maskV _ _ _ _ _ ha0,
+    smul_limDelta_maskV _ _ _ _ _ ha1, smul_limDelta_maskV _ _ _ _ _ ha2,
+    smul_limDelta_any _ _ _ _ hv0, smul_limDelta_any _ _ _ _ hv1, smul_limDelta_any _ _ _ _ hv2,
+    v3_add_zero_zero, smul_zero_vec, maskV_zero, v3_sub_zero_lit]
+
+end dofs
+
+section collide
+variable {K : Type} [Field K] [LinearOrder K] [IsStrictOrderedRing K] [HasSqrt K] [HasF32 K]
+
+
+
+/-- a contact that does not penetrate: `apply_n = false`, zero impulse -/
+theorem impulse_separated (s : Sys K) (st : Spring.State K) (c : Contact K) (h : ¬ c.dist < 0) :
+    Spring.impulse s st c = (⟨0, 0⟩, false) := by
+  unfold Spring.impulse
+  simp only [h, decide_false, Bool.false_and, maskV_false, v3_add_zero_zero]
+  rfl
+
+theorem mem_zipWith_elim {β γ δ : Type} (f : β → γ → δ) (l₁ : List β) (l₂ : List γ) {x : δ}
+    (h : x ∈ List.zipWith f l₁ l₂) : ∃ a ∈ l₁, ∃ b ∈ l₂, x = f a b := by
+  induction l₁ generalizing l₂ with
+  | nil => simp at h
+  | cons a l₁ ih =>
+    cases l₂ with
+    | nil => simp at h
+    | cons b l₂ =>
+      simp only [List.zipWith_cons_cons, List.mem_cons] at h
+      rcases h with rfl | h
+      · exact ⟨a, by simp, b, by simp, rfl⟩
+      · obtain ⟨a', ha', b', hb', rfl⟩ := ih l₂ h
+        exact ⟨a', List.mem_cons_of_mem _ ha', b', List.mem_cons_of_mem _ hb', rfl⟩
+
+theorem force_neg_zero : -(⟨0, 0⟩ : Force K) = ⟨0, 0⟩ := by
+  show (⟨-(0 : V3 K), -(0 : V3 K)⟩ : Force K) = ⟨0, 0⟩
+  simp [V3.neg_def, v3_zero_eq]
+
+/-- zero impulses spread to zero per-link impulses -/
+theorem spread_zero (n : Nat) (xiAt : Int → Tf K) (cs : List (Contact K)) (ps : List (Force K))
+    (isC : List K) (h : ∀ p ∈ ps, p = ⟨0, 0⟩) {i : Nat} (hi : i < n) :
+    nth (Spring.spreadImpulses n xiAt cs ps isC) i = ⟨0, 0⟩ := by
+  unfold Spring.spreadImpulses
+  simp only []
+  rw [nth_tab _ hi, nth_segmentSum_eq _ _ hi, segAt_zero]
+  · show (⟨⟨0 / _, 0 / _, 0 / _⟩, ⟨0 / _, 0 / _, 0 / _⟩⟩ : Force K) = _
+    simp only [zero_div]; rfl
+  · intro p hp
+    obtain ⟨a, _, b, hb, hab⟩ := mem_zipWith_elim _ _ _ (List.of_mem_zip hp).1
+    rw [hab]
+    have hb0 : b = ⟨0, 0⟩ := by
+      rcases List.mem_append.mp hb with h1 | h1
+      · exact h _ h1
+      · obtain ⟨q, hq, hq2⟩ := List.mem_map.mp h1
+        rw [← hq2, h q hq]; exact force_neg_zero
+    rw [hb0]
+    exact doForce_zero _
+
+/-- all contacts separated: `collisions.resolve` changes no velocity -/
+theorem collide_separated (s : Sys K) (st : Spring.State K) (cs : List (Contact K))
+    (h : ∀ c ∈ cs, ¬ c.dist < 0) {i : Nat} (hi : i < s.numLinks) :
+    nth (Spring.collide s st cs) i = ⟨0, 0⟩ := by
+  unfold Spring.collide
+  simp only []
+  split
+  · rw [nth_tab _ hi]
+  · rw [nth_tab _ hi, spread_zero _ _ _ _ _ _ hi]
+    · show (⟨M3.mulVec _ (0 : V3 K), ⟨(0 : K) / _, (0 : K) / _, (0 : K) / _⟩⟩ : Motion K) = ⟨0, 0⟩
+      rw [v3_zero_eq, mulVec_zero_lit]; simp only [zero_div]
+    · intro p hp
+      simp only [List.map_map, List.mem_map, Function.comp] at hp
+      obtain ⟨c, hc, rfl⟩ := hp
+      rw [impulse_separated s st c (h c hc)]
+
+
+
+/-- the friction drag direction is tangential: `(v + (−n·v) n) · (−n) = 0` for a unit normal -/
+theorem drag_tangential (cv n : V3 K) (hn : V3.dot n n = 1) :
+    V3.dot (cv + V3.smul (V3.dot (-n) cv) n) (-n) = 0 := by
+  simp only [V3.dot, V3.neg_def, V3.add_def, V3.smul] at *
+  linear_combination (n.x * cv.x + n.y * cv.y + n.z * cv.z) * hn
+
+theorem impulse_final_dot (b1 b2 : Bool) (imp impD dd : K) (velD nn : V3 K)
+    (h0 : V3.dot velD nn = 0) (h1 : V3.dot nn nn = 1) :
+    V3.dot (maskV b1 (V3.smul imp nn)
+      + maskV b2 (V3.smul (-1 * impD) ⟨velD.x / dd, velD.y / dd, velD.z / dd⟩)) nn
+      = if b1 then imp else 0 := by
+  simp only [V3.dot] at h0 h1
+  cases b1 <;> cases b2 <;> simp only [maskV, V3.dot, V3.add_def, V3.smul, if_true, if_false,
+    Bool.false_eq_true]
+  · ring
+  · by_cases hd : dd = 0
+    · subst hd; simp
+    · field_simp; linear_combination (-impD) * h0
+  · linear_combination imp * h1
+  · by_cases hd : dd = 0
+    · subst hd; simp; linear_combination imp * h1
+    · field_simp; linear_combination (imp * dd) * h1 + (-impD) * h0
+
+/-- **push-only (spring)**: the normal component (along `-frame[0]`, the direction that separates
+the first body from the second) of the impulse given to the first body is `impulse·[apply_n]`;
+the friction drag is tangential. -/
+theorem impulse_normal_component (s : Sys K) (st : Spring.State K) (c : Contact K)
+    (hn : V3.dot c.normal c.normal = 1) :
+    0 ≤ V3.dot (Spring.impulse s st c).1.vel (-c.normal)
+    ∧ ((Spring.impulse s st c).2 = true → 0 < V3.dot (Spring.impulse s st c).1.vel (-c.normal))
+    ∧ ((Spring.impulse s st c).2 = false → (Spring.impulse s st c).1 = ⟨0, 0⟩) := by
+  have hnn : V3.dot (-c.normal) (-c.normal) = 1 := by
+    simp only [V3.dot, V3.neg_def] at *; linear_combination hn
+  unfold Spring.impulse
+  simp only []
+  rw [impulse_final_dot _ _ _ _ _ _ _ (drag_tangential _ _ hn) hnn]
+  refine ⟨?_, ?_, ?_⟩
+  · split
+    · rename_i h
+      simp only [Bool.and_eq_true, decide_eq_true_eq] at h
+      exact le_of_lt h.2
+    · exact le_refl 0
+  · intro h
+    rw [if_pos h]
+    simp only [Bool.and_eq_true, decide_eq_true_eq] at h
+    exact h.2
+  · intro h
+    simp only [h, Bool.false_and, maskV_false]
+    show (⟨0, (⟨0, 0, 0⟩ : V3 K) + ⟨0, 0, 0⟩⟩ : Force K) = ⟨0, 0⟩
+    rw [v3_add_zero_lit]; rfl
+
+/-- a lever arm parallel to the normal carries no normal velocity from rotation:
+`n · (ω × r) = ω · (r × n) = 0` -/
+theorem dot_cross_lever (nn w r : V3 K) (h : V3.cross r nn = ⟨0, 0, 0⟩) :
+    V3.dot nn (V3.cross w r) = 0 := by
+  simp only [V3.cross, V3.mk.injEq] at h
+  obtain ⟨hx, hy, hz⟩ := h
+  simp only [V3.dot, V3.cross]
+  linear_combination w.x * hx + w.y * hy + w.z * hz
+
+theorem dot_maskV_lever (b : Bool) (nn v w r : V3 K) (h : b = true → V3.cross r nn = ⟨0, 0, 0⟩) :
+    V3.dot nn (maskV b (v + V3.cross w r)) = V3.dot nn (maskV b v) := by
+  cases b
+  · rfl
+  · have := dot_cross_lever nn w r (h rfl)
+    simp only [maskV, if_true, V3.dot, V3.add_def] at *
+    linear_combination this
+
+theorem dot_sub' (n a b : V3 K) : V3.dot n (a - b) = V3.dot n a - V3.dot n b := by
+  simp only [V3.dot, V3.sub_def]; ring
+
+theorem ang_lever (b : Bool) (k : K) (nn r : V3 K) (h : b = true → V3.cross r nn = ⟨0, 0, 0⟩) :
+    V3.cross (V3.smul (maskS b k) (V3.cross r nn)) r = ⟨0, 0, 0⟩ := by
+  cases b
+  · simp [maskS, V3.smul, V3.cross]
+  · rw [h rfl]; simp [V3.smul, V3.cross]
+
+/-- normal approach speed of the two contact points, without the rotational part -/
+def contactNormalVel (st : Spring.State K) (c : Contact K) : K :=
+  V3.dot (-c.normal) (maskV (decide (-1 < c.link1)) (takeWrap st.xd_i c.link1).vel)
+  - V3.dot (-c.normal) (maskV (decide (-1 < c.link2)) (takeWrap st.xd_i c.link2).vel)
+
+/-- `1/m₁ + 1/m₂` (a world link contributes `0`) -/
+def contactInvMass (st : Spring.State K) (c : Contact K) : K :=
+  maskS (decide (-1 < c.link1)) (1 / st.mass.getD (c.link1 % (st.mass.length : Int)).toNat 0)
+  + maskS (decide (-1 < c.link2)) (1 / st.mass.getD (c.link2 % (st.mass.length : Int)).toNat 0)
+
+theorem impulse_rebound (s : Sys K) (st : Spring.State K) (c : Contact K)
+    (hn : V3.dot c.normal c.normal = 1)
+    (hl1 : -1 < c.link1 → V3.cross (c.pos - (takeWrap st.x_i c.link1).pos) (-c.normal) = ⟨0, 0, 0⟩)
+    (hl2 : -1 < c.link2 → V3.cross (c.pos - (takeWrap st.x_i c.link2).pos) (-c.normal) = ⟨0, 0, 0⟩) :
+    V3.dot (Spring.impulse s st c).1.vel (-c.normal)
+      = if (Spring.impulse s st c).2
+        then (-1 * (1 + c.elasticity) * contactNormalVel st c - s.baumgarteErp / s.dt * c.dist)
+              / contactInvMass st c
+        else 0 := by
+  have hnn : V3.dot (-c.normal) (-c.normal) = 1 := by
+    simp only [V3.dot, V3.neg_def] at *; linear_combination hn
+  have h1 : decide (-1 < c.link1) = true → _ := fun h => hl1 (of_decide_eq_true h)
+  have h2 : decide (-1 < c.link2) = true → _ := fun h => hl2 (of_decide_eq_true h)
+  unfold Spring.impulse contactNormalVel contactInvMass
+  simp only []
+  rw [impulse_final_dot _ _ _ _ _ _ _ (drag_tangential _ _ hn) hnn]
+  simp only [dot_sub', dot_maskV_lever _ _ _ _ _ h1, dot_maskV_lever _ _ _ _ _ h2,
+    ang_lever _ _ _ _ h1, ang_lever _ _ _ _ h2, v3_add_zero_lit]
+  have hz : V3.dot (-c.normal) (⟨0, 0, 0⟩ : V3 K) = 0 := by simp [V3.dot]
+  simp only [hz, add_zero]
+
+
+/-- `collisions.resolve` for ONE contact between the world (`link_idx[0] = -1`) and link `k`:
+the link's velocity changes by minus the impulse, divided by the `float32` contact counter
+`apply_n + 1e-8` and by the link's mass -/
+theorem collide_single_world (s : Sys K) (st : Spring.State K) (c : Contact K) (k : Nat)
+    (hk : k < s.numLinks) (h1 : c.link1 = -1) (h2 : c.link2 = (k : Int)) :
+    (nth (Spring.collide s st [c]) k).vel
+      = vdiv (vdiv (-(Spring.impulse s st c).1.vel)
+          (HasF32.f32 ((if (Spring.impulse s st c).2 then (1 : K) else 0) + 1e-8))) (nthS st.mass k) := by
+  unfold Spring.collide
+  simp only [List.isEmpty_cons, Bool.false_eq_true, if_false, List.map_cons, List.map_nil]
+  rw [nth_tab _ hk]
+  have hrow := spread_row s.numLinks (takeWrap st.x_i) [c] [(Spring.impulse s st c).1]
+    [if (Spring.impulse s st c).2 then (1 : K) else 0] (-1) (k : Int)
+    (by intro c' hc'; simp only [List.mem_singleton] at hc'; subst hc'; exact ⟨h1, h2⟩) rfl rfl hk
+  simp only []
+  rw [hrow]
+  have hne : ¬ ((-1 : Int) = (k : Int)) := by omega
+  simp only [hne, if_false, if_true, List.map_cons, List.map_nil, List.sum_cons, List.sum_nil,
+    add_zero, zero_add, vdiv]
+
+end collide
+
+section integrate
+variable {K : Type} [Field K] [LinearOrder K] [IsStrictOrderedRing K] [HasSqrt K] [HasExp K]
+
+
+/-- `sqrt` behaves like a square root on non-negative arguments (true of `Real.sqrt`) -/
+def SqrtOK (K : Type) [Mul K] [Zero K] [LE K] [HasSqrt K] : Prop :=
+  ∀ x : K, 0 ≤ x → HasSqrt.sqrt x * HasSqrt.sqrt x = x
+
+/-- quaternion-norm multiplicativity, specialised to the integrators' update
+`rot + (0, a, b, c) ⊗ rot`: the squared norm is multiplied by `1 + a² + b² + c²` -/
+theorem normSq_integrate (q : Q4 K) (a b c : K) :
+    Q4.normSq (q + quatMul ⟨0, a, b, c⟩ q) = Q4.normSq q * (1 + (a * a + b * b + c * c)) := by
+  show Q4.normSq (⟨_, _, _, _⟩ : Q4 K) = _
+  simp only [Q4.normSq, quatMul]; ring
+
+theorem one_add_sq_pos (a b c : K) : 0 < 1 + (a * a + b * b + c * c) := by
+  nlinarith [mul_self_nonneg a, mul_self_nonneg b, mul_self_nonneg c]
+
+theorem normSq_div (q : Q4 K) (n : K) (h : n * n = Q4.normSq q) (hpos : 0 < Q4.normSq q) :
+    Q4.normSq (⟨q.w / n, q.x / n, q.y / n, q.z / n⟩ : Q4 K) = 1 := by
+  have hn : n ≠ 0 := by
+    rintro rfl; rw [zero_mul] at h; rw [← h] at hpos; exact lt_irrefl _ hpos
+  simp only [Q4.normSq] at *
+  field_simp
+  linear_combination -h
+
+/-- **`spring.integrator.integrate` returns unit quaternions** whenever the incoming rotation is
+not the zero quaternion (in particular for a unit one): the un-normalised update has squared norm
+`‖rot‖²·(1 + dt²‖ω‖²/4) > 0` and is divided by its norm. -/
+theorem integrateLink_unit (s : Sys K) (x_i : Tf K) (xd_i xdv_i : Motion K) (hs : SqrtOK K)
+    (h : 0 < Q4.normSq x_i.rot) :
+    Q4.normSq (Spring.integrateLink s x_i xd_i xdv_i).1.rot = 1 := by
+  unfold Spring.integrateLink
+  simp only [angToQuat, zero_mul]
+  apply normSq_div
+  · rw [← Q4.normSq]; apply hs
+    rw [normSq_integrate]
+    exact le_of_lt (mul_pos h (one_add_sq_pos _ _ _))
+  · rw [normSq_integrate]
+    exact mul_pos h (one_add_sq_pos _ _ _)
+
+end integrate
 
 end Brax.C06L
